@@ -71,6 +71,7 @@ def e1_configs(tier):
     # callback overlaps a child's is only visible this way
     for f in family51()[3::6]:
         cfgs.append(W(kind="filtered", depth=2, W=2, accepted=f, with_pause=True))
+    cfgs.append(W(kind="filtered", depth=2, W=2, accepted=stages.FalsyAccepted(tuple(a) for a in family51()[20])))
     cfgs.append(W(kind="filtered", depth=2, W=2, accepted=family51()[20], apex=(1, 0, 0)))
     cfgs.append(W(kind="filtered", depth=2, W=2, accepted=family51()[20], apex=(1, 1, 1)))
     cfgs.append(W(kind="filtered", depth=2, W=2, accepted=family51()[20], apex=(1, 1, 0)))
@@ -167,6 +168,19 @@ def serial_case(kind, depth, accepted, apex, coordsys, part, parallel_fixed):
     msg = order_check(calls, exp, model)
     if msg:
         part.violation("serial/%s/%s" % (msg[0], kind), "%r: %s" % (cfg, msg[1]), cfg)
+    if apex != (0, 0, 0) and depth <= 3:
+        # the documented `depth` attribute changed on the restricted instance: walked as a pyramid one level deeper
+        m2 = stages.ref_model(kind, depth + 1, accepted, apex)
+        calls2 = []
+        try:
+            pyr.depth = depth + 1
+            with quiet():
+                pyr.walk(lambda pos: calls2.append(tuple(pos)), parallel=1)
+            msg2 = order_check(calls2, [tuple(p) for p in m2.ops], m2)
+            if msg2:
+                part.violation("serial/depth-changed-after-subpyramid/%s/%s" % (msg2[0], kind), "%r then depth = %d: %s" % (cfg, depth + 1, msg2[1]), cfg)
+        except Exception as e:
+            part.violation("serial/depth-changed-after-subpyramid/raises:%s/%s" % (type(e).__name__, kind), "%r: %r" % (cfg, e), cfg)
     if parallel_fixed and exp:
         for mode in ("first", "last"):
             h = stages.Walk(kind=kind, depth=depth, W=2, accepted=accepted, apex=apex, coordsys=coordsys)
@@ -268,6 +282,10 @@ def e2_cases(tier):
             if a[0] == 2 and (1, a[1] // 2, a[2] // 2) in fl:
                 cases.append(("filtered", 2, [q for q in fl if q != (1, a[1] // 2, a[2] // 2)], a, None, True))
                 break
+    # the filter given as a callable object whose truth value is False
+    for f in family51()[2::7]:
+        cases.append(("filtered", 2, stages.FalsyAccepted(tuple(a) for a in f), (0, 0, 0), None, True))
+        cases.append(("filtered", 2, stages.FalsyAccepted(tuple(a) for a in f), (1, 0, 0), "planetary", False))
     chain = [(1, 0, 0), (2, 1, 1), (3, 2, 2), (3, 3, 3), (2, 0, 1), (3, 0, 2)]
     for drop, apex in (((1, 0, 0), (2, 1, 1)), ((2, 1, 1), (3, 2, 2)), ((1, 0, 0), (3, 3, 3)), ((2, 0, 1), (3, 0, 2))):
         for cs in (None, "planetary"):
